@@ -45,6 +45,11 @@ impl TrainDisp {
             debug_assert!(
                 (self.offset_free - disp_node_front.offset)
                     <= link_disp_front[disp_auth_idx_curr.idx() - 1].offset_back
+                    || utils::almost_le_uom(
+                        &(self.offset_free - disp_node_front.offset),
+                        &link_disp_front[disp_auth_idx_curr.idx() - 1].offset_back,
+                        None
+                    )
             );
 
             !link_disp_front[disp_auth_idx_curr.idx() - 1]
@@ -472,8 +477,15 @@ impl TrainDisp {
 
                 let disp_auth_prev_train =
                     &disp_auths_front[disp_node_front.disp_auth_idx_entry.idx() - 1];
+                // `offset_front` is `(node offset + offset_back) - node offset`: equal to
+                // `offset_back` only up to rounding
                 debug_assert!(
-                    offset_front <= disp_auth_prev_train.offset_back,
+                    offset_front <= disp_auth_prev_train.offset_back
+                        || utils::almost_le_uom(
+                            &offset_front,
+                            &disp_auth_prev_train.offset_back,
+                            None
+                        ),
                     "The front of train {} was placed past the back of train {}!",
                     self.train_idx.idx(),
                     disp_auth_prev_train.train_idx.idx()
@@ -492,7 +504,12 @@ impl TrainDisp {
                 let disp_auth_idx_next = disp_node_back.disp_auth_idx_entry.idx() + 1;
                 debug_assert!(
                     disp_auth_idx_next == disp_auths_back.len()
-                        || disp_auths_back[disp_auth_idx_next].offset_front <= offset_back,
+                        || disp_auths_back[disp_auth_idx_next].offset_front <= offset_back
+                        || utils::almost_le_uom(
+                            &disp_auths_back[disp_auth_idx_next].offset_front,
+                            &offset_back,
+                            None
+                        ),
                     "The back of train {} was placed prior to the front of the next train {}!",
                     self.train_idx.idx(),
                     disp_auths_back[disp_auth_idx_next].train_idx.idx()
